@@ -232,7 +232,8 @@ def confusables(p, draw):
 
 def shards(tier):
     n = 16
-    return [{"kind": "codec" if i % 2 == 0 else "file", "n": (4000 if i % 2 == 0 else 150) if tier == "quick" else (60000 if i % 2 == 0 else 3000)} for i in range(n)]
+    if tier == "thorough":
+        return [{"kind": "fuzz", "runs": 250000} for _ in range(4)] + [{"kind": "codec" if i % 2 == 0 else "file", "n": (4000 if i % 2 == 0 else 150) if tier == "quick" else (60000 if i % 2 == 0 else 3000)} for i in range(n)]
 
 
 def run_shard(spec, ctx):
@@ -245,6 +246,21 @@ def run_shard(spec, ctx):
         have_codec = hasattr(Point, "_serialize_to_list") and hasattr(Point, "_deserialize_from_list")
     except Exception:
         have_codec = False
+    if spec["kind"] == "fuzz":
+        if not have_codec:
+            return
+        stats, v = core.run_fuzz("c05", ctx, spec["runs"])
+        if stats is None:
+            acc.cls("atheris_unavailable")
+            return
+        acc.ev(stats.get("execs", 0))
+        acc.cls("atheris_execs", stats.get("execs", 0))
+        acc.nontrivial_enum += stats.get("distinct_nontrivial", 0)
+        for k, n_ in (stats.get("excluded") or {}).items():
+            acc.excluded[k] += n_
+        if v is not None:
+            raise v
+        return
     if spec["kind"] == "codec" and have_codec:
 
         @st.composite
